@@ -254,5 +254,42 @@ def extra_checks(ctx, cases_, impl_lines, model_lines_):
     formatted, has another record encoded on the same thread (logging from a Display impl), a record whose message
     fails half-way, a record encoded after earlier ones failed on the thread - C09's record families (modes 6 and 9)"""
     from gen import xcheck
-    return xcheck.borrow(ctx, "C09", "encoding never panics, whatever the record's message does while it is formatted",
-                         lambda c: c[0] in (6, 9), n=300)
+    res = xcheck.borrow(ctx, "C09", "encoding never panics, whatever the record's message does while it is formatted",
+                        lambda c: c[0] in (6, 9), n=300)
+    return res or huge_max_checks(ctx)
+
+
+def huge_max_checks(ctx):
+    """A MAXIMUM width only ever cuts: however large it is (up to usize::MAX) it asks for nothing to be produced, so a
+    pattern with such a maximum is ENCODED here (the model keeps widths in unary naturals and is not run on them): the
+    output must be that of the same pattern with maximum 64, for records whose fields are shorter than that - and the
+    encoder must not panic or abort."""
+    vc = ctx["vc"]
+    pairs = []
+    k = 900000
+    for b in ("18446744073709551615", "18446744073709551614", "9223372036854775808", "9223372036854775807",
+              "4294967296", "1099511627776", "00000000000018446744073709551615"):
+        for tmpl in ("{m:.%s}", "{m:>5.%s}", "{m:<5.%s}|", "{l:0>7.%s}", "{(ab):9.%s}", "{h({m:.%s}):>30.%s}", "{m:5.%s}x",
+                     "{X(k)(d):-<6.%s}", "[{({l} {m}):>12.%s}]", "{D({m:>3.%s})}{R(x):.%s}"):
+            big = mk_str(tmpl.replace("%s", b), k)
+            ref = mk_str(tmpl.replace("%s", "64"), k)
+            big[0] = ref[0] = 1
+            pairs.append((big, ref))
+            k += 1
+    lines = [vc.show(c) for p in pairs for c in p]
+    res = vc.run_lines([ctx["vh"]], lines, timeout_per_batch=300)
+    out = []
+    for i, (big, ref) in enumerate(pairs):
+        rb, rr = res[2 * i], res[2 * i + 1]
+        try:
+            vb, vr = vc.parse(rb), vc.parse(rr)
+            same = isinstance(vb, list) and isinstance(vr, list) and len(vb) == 4 and vb[3] == vr[3]
+        except Exception:
+            same = False
+        if not same:
+            out.append(("a pattern whose MAXIMUM width is huge (%s) does not encode like the same pattern with maximum 64: %s vs %s"
+                        % ("".join(chr(x) for x in big[1]), rb[:200], rr[:200]),
+                        {"case_line": lines[2 * i], "reference_case_line": lines[2 * i + 1]}))
+            break
+    ctx.setdefault("xcheck", {})["patterns_with_huge_maximum_width_encoded"] = len(pairs)
+    return out
